@@ -1,4 +1,5 @@
 (* family id -> extracted model entry point *)
 let table = [
   (1, FamEnv.run_fam_env);
+  (2, FamRM.run_fam_rm);
 ]
